@@ -146,3 +146,31 @@ package chancloser
 //@   site store RemoteCloseStart.CloseChannelTerms: assert value == addr(closeTerms)
 //@   site store ClosingNegotiation.CloseChannelTerms: assert value == addr(closeTerms)
 //@   site store CloseChannelTerms.ShutdownBalances: assert value == dynptr(event, *ChannelFlushed).ShutdownBalances
+//@
+//@ // ---- RBF close: the closer picks its signature variant from DeriveCloseTxOuts, the closee picks the variant it accepts from
+//@ // ---- LocalAmtIsDust / RemoteAmtIsDust: the two must draw the line at the same place - an output is kept exactly when the balance is at
+//@ // ---- or above the dust limit of its delivery script, and "is dust" is exactly the negation (also at a balance EQUAL to the limit)
+//@ func (c *CloseChannelTerms) RemoteAmtIsDust
+//@   props C17
+//@   ensures result == (ret(ToSatoshis) < ret(DustLimitForSize))
+//@   site call DustLimitForSize: assert arg(0) == len(c.RemoteDeliveryScript)
+//@   site call ToSatoshis: assert arg(0) == c.RemoteBalance
+//@
+//@ func (c *CloseChannelTerms) LocalAmtIsDust
+//@   props C17
+//@   ensures result == (ret(ToSatoshis) < ret(DustLimitForSize))
+//@   site call DustLimitForSize: assert arg(0) == len(c.LocalDeliveryScript)
+//@   site call ToSatoshis: assert arg(0) == c.LocalBalance
+//@
+//@ func (c *CloseChannelTerms) DeriveCloseTxOuts$1
+//@   props C17
+//@   ensures (result != nil) == (balance >= ret(DustLimitForSize))
+//@   ensures result != nil ==> result.Value == balance && result.PkScript == pkScript
+//@   site call DustLimitForSize: assert arg(0) == len(pkScript)
+//@
+//@ func (c *CloseChannelTerms) DeriveCloseTxOuts
+//@   props C17
+//@   site call DeriveCloseTxOuts$1 nth 0: assert arg(0) == ret(ToSatoshis, 0) && arg(1) == c.LocalDeliveryScript
+//@   site call DeriveCloseTxOuts$1 nth 1: assert arg(0) == ret(ToSatoshis, 1) && arg(1) == c.RemoteDeliveryScript
+//@   site call ToSatoshis nth 0: assert arg(0) == c.LocalBalance
+//@   site call ToSatoshis nth 1: assert arg(0) == c.RemoteBalance
